@@ -12,9 +12,10 @@ Implicit Types (p q r : poly) (c : vec) (x a b m h : Qc) (k j n : nat).
 
 Lemma of_nat_S k : of_nat (S k) = of_nat k + 1.
 Proof.
-  apply Qc_is_canon. unfold of_nat. simpl.
-  rewrite !Qred_correct. rewrite Nat2Z.inj_succ. unfold Z.succ.
-  rewrite inject_Z_plus. reflexivity.
+  unfold of_nat, Qcplus. apply Q2Qc_eq_iff.
+  change (this (Q2Qc (inject_Z (Z.of_nat k)))) with (Qred (inject_Z (Z.of_nat k))).
+  rewrite Qred_correct. change (this 1) with 1%Q.
+  rewrite Nat2Z.inj_succ. unfold Z.succ. rewrite inject_Z_plus. reflexivity.
 Qed.
 
 Lemma of_nat_0 : of_nat 0 = 0.
@@ -282,7 +283,7 @@ Proof.
   - cbn [pshift]. rewrite coef_nil. symmetry. apply pshift_zero.
     intro i. rewrite <- H. apply coef_nil.
   - destruct q as [|v q].
-    + cbn [pshift] at 2. rewrite coef_nil. apply pshift_zero.
+    + change (pshift [] m h) with (@nil Qc). rewrite coef_nil. apply pshift_zero.
       intro i. rewrite H. apply coef_nil.
     + assert (Huv : u = v). { specialize (H 0%nat). rewrite !coef_cons_0 in H. exact H. }
       assert (Hpq : forall i, coef p i = coef q i).
@@ -293,13 +294,19 @@ Proof.
       * rewrite !coef_pmul_lin_S, !IH. reflexivity.
 Qed.
 
+Lemma pshift_cons u p m h : pshift (u :: p) m h = padd [u] (pmul_lin m h (pshift p m h)).
+Proof. reflexivity. Qed.
+
+Lemma padd_cons u v p q : padd (u :: p) (v :: q) = (u + v) :: padd p q.
+Proof. reflexivity. Qed.
+
 Lemma pshift_padd p q m h : peq (pshift (padd p q) m h) (padd (pshift p m h) (pshift q m h)).
 Proof.
   revert q. induction p as [|u p IH]; intros q k.
   - reflexivity.
   - destruct q as [|v q].
-    + cbn [padd pshift]. rewrite padd_nil_r. reflexivity.
-    + cbn [padd pshift]. rewrite !coef_padd. destruct k as [|k].
+    + cbn [padd]. change (pshift [] m h) with (@nil Qc). rewrite padd_nil_r. reflexivity.
+    + rewrite padd_cons, !pshift_cons. rewrite !coef_padd. destruct k as [|k].
       * rewrite !coef_pmul_lin_0, IH, coef_padd, !coef_cons_0. ring.
       * rewrite !coef_pmul_lin_S, !IH, !coef_padd, !coef_single. ring.
 Qed.
@@ -369,6 +376,7 @@ Proof.
   apply peval_diff_tail. intro k.
   rewrite coef_pscale. unfold Q. rewrite coef_pantider_S.
   assert (C := pderiv_pshift G m h k).
+  unfold G in *. clear G.
   rewrite coef_pderiv, coef_pscale in C.
   rewrite (peq_pshift _ _ m h (pderiv_pantider p) k) in C.
   assert (N := of_nat_S_neq0 k).
